@@ -735,6 +735,10 @@ func (f *Frame) enterLoop(li *loopInfo, st *State) *State {
 			over[phi.Comment] = v
 		}
 	}
+	// lemma instances named for the loop are also available on entry
+	for _, lu := range li.spec.Uses {
+		f.applyLemma(lu, fmt.Sprintf("loop %d entry", li.k), f.loopLookup(li, over, st), st)
+	}
 	for i, inv := range li.spec.Invariants {
 		ce := f.cenv(f.loopLookup(li, over, st), st.heap, f.entrySt.heap)
 		t, err := ce.evalBool(inv.E)
@@ -781,6 +785,9 @@ func (f *Frame) enterLoop(li *loopInfo, st *State) *State {
 			continue
 		}
 		f.u.assume(hst.reach, t)
+	}
+	for _, lu := range li.spec.Uses {
+		f.applyLemma(lu, fmt.Sprintf("loop %d header", li.k), f.loopLookup(li, over2, hst), hst)
 	}
 	if li.spec.Decreases != nil {
 		ce := f.cenv(f.loopLookup(li, over2, hst), hst.heap, f.entrySt.heap)
